@@ -98,8 +98,12 @@ def c13(rng):
     sur = Script.from_src('true')
     out.append(('graftroot:surrogate', [bs(T.make_graftroot_witness_surrogate(SEEDS[a], sur)), bs(lock)], sf, cfg, True))
     out.append(('graftroot:surrogate-signed-by-other', [bs(T.make_graftroot_witness_surrogate(SEEDS[b], sur)), bs(lock)], sf, cfg, False))
-    w = T.make_graftroot_witness_surrogate(SEEDS[a], sur)
-    swapped = bs(w).replace(bs(Script.from_src('push x' + sur.bytes.hex())), bs(Script.from_src('push x0101')), 1) if False else None
+    # the signature of an accepted surrogate presented with another surrogate script
+    w = bs(T.make_graftroot_witness_surrogate(SEEDS[a], sur))
+    ssig = w[2:66]
+    other = Script.from_src(rng.choice(['true true verify', 'push d1 push d1 equal', 'false not']))
+    out.append(('graftroot:surrogate-signature-reused-for-another-script',
+                [gpush(ssig) + gpush(other.bytes) + bytes([F.opcodes_inverse['OP_TRUE'][0]]), bs(lock)], sf, cfg, False))
     # graftap
     lock = T.make_graftap_lock(PUBS[a], alh)
     out.append(('graftap:keyspend', [bs(T.make_graftap_witness_keyspend(SEEDS[a], sf, flh)), bs(lock)], sf, cfg, True))
@@ -225,27 +229,31 @@ def c16(rng):
     argument); D11 cases are labelled finding=D11. Tuples carry a 6th element (finding id or None)."""
     out = []
     now = Pins.now
-    thr = 60
-    cfg = tsh.Cfg()
-    for d_ts in (-70, -1, 0, 1, 30, 70):
-        ts = now + d_ts
-        for d_t in sorted({d_ts - 1, d_ts, d_ts + 1, thr - 1, thr, thr + 1, 0}):
-            t = now + d_t
-            within = t - now < thr
-            for ver in (False, True):
-                pre = [b'\x01'] if ver else []     # 'true' first so that the VERIFY forms end with [ff]
-                lock = bs(T.make_timestamp_after_lock(ts, ver))
-                out.append(('after ts=now%+d t=now%+d verify=%s' % (d_ts, d_t, ver), pre + [lock], {'timestamp': t}, cfg, (t >= ts) and within, None))
-                lock = bs(T.make_timestamp_before_lock(ts, ver))
-                finding = 'D11' if (t >= ts and not within) else None
-                out.append(('before ts=now%+d t=now%+d verify=%s' % (d_ts, d_t, ver), pre + [lock], {'timestamp': t}, cfg, t < ts, finding))
-        for d_e in (d_ts + 1, d_ts + 40):
-            end = now + d_e
-            for d_t in sorted({d_ts - 1, d_ts, d_e - 1, d_e, d_e + 1, 59, 60}):
+    # the embedder configures the slack for run_auth_scripts in the module table functions.flags; the thresholds
+    # change between runs of one process (a verifier's configuration has a history)
+    for thr in (60, rng.choice([10, 7, 100]), rng.choice([0, -5]), 60):
+        cfg = tsh.Cfg() if thr == 60 else tsh.Cfg(global_flags={'ts_threshold': thr})
+        tag = '' if thr == 60 else ' [functions.flags ts_threshold=%d]' % thr
+        full = thr == 60
+        for d_ts in ((-70, -1, 0, 1, 30, 70) if full else (-1, 0, thr - 2, 30)):
+            ts = now + d_ts
+            for d_t in sorted({d_ts - 1, d_ts, d_ts + 1, thr - 1, thr, thr + 1, 0, 59, 60}):
                 t = now + d_t
-                within = t - now < thr
-                lock = bs(T.make_timestamp_between_lock(ts, end, False))
-                out.append(('between [now%+d,now%+d) t=now%+d' % (d_ts, d_e, d_t), [lock], {'timestamp': t}, cfg, (ts <= t < end) and within, None))
+                within = thr <= 0 or t - now < thr
+                for ver in (False, True):
+                    pre = [b'\x01'] if ver else []     # 'true' first so that the VERIFY forms end with [ff]
+                    lock = bs(T.make_timestamp_after_lock(ts, ver))
+                    out.append(('after ts=now%+d t=now%+d verify=%s%s' % (d_ts, d_t, ver, tag), pre + [lock], {'timestamp': t}, cfg, (t >= ts) and within, None))
+                    lock = bs(T.make_timestamp_before_lock(ts, ver))
+                    finding = 'D11' if (t >= ts and not within) else None
+                    out.append(('before ts=now%+d t=now%+d verify=%s%s' % (d_ts, d_t, ver, tag), pre + [lock], {'timestamp': t}, cfg, t < ts, finding))
+            for d_e in (d_ts + 1, d_ts + 40):
+                end = now + d_e
+                for d_t in sorted({d_ts - 1, d_ts, d_e - 1, d_e, d_e + 1, 59, 60, thr - 1, thr}):
+                    t = now + d_t
+                    within = thr <= 0 or t - now < thr
+                    lock = bs(T.make_timestamp_between_lock(ts, end, False))
+                    out.append(('between [now%+d,now%+d) t=now%+d%s' % (d_ts, d_e, d_t, tag), [lock], {'timestamp': t}, cfg, (ts <= t < end) and within, None))
     return out
 
 
@@ -350,6 +358,14 @@ def c04(rng):
         tree = rand_tree(rng, lv, history=(kind == 'grown'))
         lock = tree.locking_script()
         unlocks = [l.unlocking_script() for l in lv]
+    # malformed proofs first (they are refused), then the honest ones: a refused proof must not spoil later runs.
+    # (a) the script alone (one item when MERKLEVAL starts); (b) a proof whose deepest sibling hash was dropped
+    k0 = rng.randrange(len(unlocks))
+    ub = bs(unlocks[k0])
+    first_len = 2 + ub[1] if ub[:1] == b'\x03' else None
+    out.append(('%s script-only witness (no sibling hash)' % kind, [gpush(Script.from_src(srcs[min(k0, len(srcs) - 1)]).bytes), bs(lock)], {}, cfg, False, None, ''))
+    if first_len and first_len < len(ub):
+        out.append(('%s proof with its first push dropped' % kind, [ub[first_len:], bs(lock)], {}, cfg, False, None, None))
     for i, u in enumerate(unlocks[:len(bodies)]):
         exp_log = 'v%s:%02x' % (REC.hex(), i)
         out.append(('%s n=%d leaf=%d body=%r' % (kind, n, i, bodies[i]), [bs(u), bs(lock)], {}, cfg, own[i], None, exp_log))
@@ -362,6 +378,16 @@ def c04(rng):
     foreign = Script.from_src(leaf_src(99 % 256, 'true'))
     sib = hashlib.sha256(b'x').digest()
     out.append(('%s foreign-leaf' % kind, [bs(Script.from_src('push x%s push x%s' % (sib.hex(), foreign.bytes.hex()))), bs(lock)], {}, cfg, False, None, ''))
+    # the tree classes vs model/MerkleTree.v (the definitions the C04 tree theorems are about): the model reads the
+    # real pack() bytes, and must produce the same lock, the same unlocking script for every leaf, the same pack
+    def paths(node, pre=''):
+        if isinstance(node, T.ScriptLeaf):
+            return [(pre, node)]
+        return paths(node.left, pre + 'L') + paths(node.right, pre + 'R')
+    pk = tree.pack()
+    for pth, leaf in paths(tree):
+        out.append(('MT', 'MT %s %s' % (pk.hex(), pth or '-'),
+                    'ok %s %s %s' % (bs(tree.locking_script()).hex(), bs(leaf.unlocking_script()).hex() or '-', pk.hex())))
     # serialisation round trip (direct)
     packed = tree.pack()
     t2 = T.ScriptNode.unpack(packed)
@@ -411,6 +437,35 @@ def c05(rng):
             lb = bytearray(bs(lock)); bit = rng.choice([255, 255, rng.randrange(256)])
             lb[2 + (bit // 8)] ^= 1 << (bit % 8)
             out.append((nm + ':scriptspend-against-root-bit-%d-flipped' % bit, [bs(ws), bytes(lb)], sf, cfg, False, None, ''))
+        if not native:
+            # native / non-native equivalence on committed scripts that look at what the lock itself leaves around:
+            # definition 0 of the non-native lock (finding D18) and its extra call-budget unit (finding D19)
+            Sd = Script.from_src('call d0 pop0 true')
+            out.append(('nonnative:scriptspend of a committed script that calls definition 0 (own verdict False)',
+                        [bs(T.make_taproot_witness_scriptspend(P, Sd)), bs(T.make_nonnative_taproot_lock(P, Sd, sigflags=flh))],
+                        sf, cfg, False, 'D18', None))
+            out.append(('taproot:scriptspend of a committed script that calls definition 0 (own verdict False)',
+                        [bs(T.make_taproot_witness_scriptspend(P, Sd)), bs(T.make_taproot_lock(P, Sd, sigflags=flh))],
+                        sf, cfg, False, None, None))
+            c1 = tsh.Cfg(contracts=((REC, 'none'),), limit=1)
+            Sb = Script.from_src('true pop0 true')
+            out.append(('nonnative:scriptspend under callstack_limit 1 (native lock: True)',
+                        [bs(T.make_taproot_witness_scriptspend(P, Sb)), bs(T.make_nonnative_taproot_lock(P, Sb, sigflags=flh))],
+                        sf, c1, True, 'D19', None))
+            out.append(('taproot:scriptspend under callstack_limit 1',
+                        [bs(T.make_taproot_witness_scriptspend(P, Sb)), bs(T.make_taproot_lock(P, Sb, sigflags=flh))],
+                        sf, c1, True, None, None))
+        if native:
+            # the lock's flag byte is data of OP_TAPROOT whatever its value: a (script, key) pair that does not
+            # recompute to the root is refused under every flag byte, with or without further items below
+            for _ in range(6):
+                fb = rng.randrange(256)
+                lk = T.make_taproot_lock(P, S, sigflags='%02x' % fb)
+                wrong = rng.choice([T.make_taproot_witness_scriptspend(P, S2), T.make_taproot_witness_scriptspend(PUBS[b], S),
+                                    T.make_taproot_witness_scriptspend(PUBS[b], S2)])
+                below = rng.choice([b'', b'', bytes([F.opcodes_inverse['OP_TRUE'][0]]), bytes([F.opcodes_inverse['OP_FALSE'][0]])])
+                out.append(('taproot:scriptspend-mismatch under lock flag byte %02x%s' % (fb, ' (+item below)' if below else ''),
+                            [below + bs(wrong), bs(lk)], sf, cfg, False, None, ''))
         cands = [f for f in (1, 2, 4, 8, 0x10, 0x20, 0x40, 0x80) if f & ~fl]
         if bad_flag := (rng.choice(cands) if cands else None):
             out.append((nm + ':keyspend-flag-not-permitted', [bs(T.make_taproot_witness_keyspend(SEEDS[a], sf, S, sigflags='%02x' % bad_flag)), bs(lock)], sf, cfg, False, None, ''))
@@ -525,6 +580,13 @@ def c18(rng):
         rsub = [i for i in range(n) if rng.random() < 0.5]
     others = [i for i in range(len(SEEDS)) if i not in ids]
     refunds = {pubs[i]: PUBS[rng.choice(others)] for i in rsub}
+    # a process sets up many chains; the same seed may have served a longer or a shorter chain before
+    prior = rng.choice(['none', 'longer', 'shorter', 'longer'])
+    if prior != 'none':
+        m = n + rng.randint(1, 2) if prior == 'longer' else max(2, n - 1)
+        extra = [PUBS[i] for i in (ids + others + ids)[:m]]
+        T.setup_amhl(seed, extra)
+        _AM.AMHL.setup(m, seed)
     am = T.setup_amhl(seed, pubs, refund_pubkeys=refunds) if mode != 'none' else T.setup_amhl(seed, pubs)
     setup = _AM.AMHL.setup(n, seed)
     ys, Ys = setup
@@ -539,7 +601,9 @@ def c18(rng):
     out.append(('amhl: tweak points are prefix sums', None, None, None, ok))
     ok = all(_AM.AMHL.check_setup(_AM.AMHL.setup_for(setup, i), i, n) for i in range(n + 1))
     out.append(('amhl: every view passes check_setup', None, None, None, ok))
-    out.append(('amhl: final key opens last lock', None, None, None, _AM.AMHL.verify_lock_key(Ys[-1], am['key'])))
+    ok = len(ys) == n and len(Ys) == n
+    out.append(('amhl: setup(n, seed) has n secrets and n points (prior use of the seed: %s)' % prior, None, None, None, ok))
+    out.append(('amhl: final key opens last lock (prior use of the seed: %s)' % prior, None, None, None, _AM.AMHL.verify_lock_key(Ys[n - 1], am['key'])))
     sfs = [fields(rng) for _ in range(n)]
     wits = [T.make_adapter_witness(prvs[i], am[pubs[i]][2], sfs[i]) for i in range(n)]
     for i in range(n):
@@ -628,6 +692,8 @@ def bld_cases(rng):
     S = Script.from_src(rng.choice(LEAF_BODIES))
     lock = T.make_taproot_lock(pk, S, sigflags=flh)
     out.append(('C05', 'BLD taproot_lock %s %s' % (hx(bs(lock)[2:34]), flh), bs(lock)))
+    out.append(('C05', 'BLD nonnative_taproot_lock %s %s' % (hx(bs(lock)[2:34]), flh),
+                bs(T.make_nonnative_taproot_lock(pk, S, sigflags=flh))))
     lv = [T.ScriptLeaf.from_src(leaf_src(i, 'true')) for i in range(rng.randint(2, 4))]
     tree = rand_tree(rng, lv)
     out.append(('C04', 'BLD merkle_lock %s' % hx(tree.root()), bs(tree.locking_script())))
